@@ -110,7 +110,7 @@ func Registry(prop, tier string) []UniverseDef {
 		// the big fan-out windows and the byte sweeps stay in the thorough tier for this property
 		var keep []UniverseDef
 		for _, d := range out {
-			if strings.Contains(d.Name, "BYTESWEEP") || strings.Contains(d.Name, "@46") || strings.Contains(d.Name, "@39") || strings.Contains(d.Name, "FULL256") {
+			if strings.Contains(d.Name, "BYTESWEEP") || strings.Contains(d.Name, "@46") || (strings.Contains(d.Name, "@39") && d.Name != "alpha[string]/FAN256@39/path0" && d.Name != "unsigned[uint8]/FAN256@39") || strings.Contains(d.Name, "FULL256") {
 				continue
 			}
 			keep = append(keep, d)
